@@ -147,6 +147,7 @@ struct mcount_thread_data {
 	int record_idx;
 	bool recursion_marker;
 	bool in_exception;
+	unsigned long exception_frame;
 	bool dead;
 	bool warned;
 	unsigned long cygprof_dummy;
